@@ -122,7 +122,15 @@ SPEC = {
             "the oracle checks on the emitted Metal syntax tree that every identifier is in scope, every call matches "
             "a definition with the threaded global at the same position on both sides, and a function receives a "
             "threaded global iff it (transitively) needs it, by reference; non-trivial = at least two calls and one "
-            "implicit parameter",
+            "implicit parameter. Semantic half (stream C02.gen): well-typed RSSL programs of the scalar subset "
+            "(generator of C01 without built-in calls) and programs built around aliasing calls (a static passed as "
+            "out/inout argument to a function that touches it, one variable for two out/inout parameters, an out argument "
+            "read or written by another argument) are serialised (typed IR of every function, names, types, static "
+            "initial values), run through rssl_msl::verif_generate_ast; observation = the emitted definitions of the "
+            "function (trampoline target, trampoline) + reference evaluation of the IR + evaluation of the emitted tree; "
+            "the model answers with its own tree, the Lean Ir.phi and the Lean Msl.phi (Spec/SemMsl) on its tree; the "
+            "oracle runs the emitted module under a C++/Metal evaluator with reference parameters and compares return "
+            "value, out/inout results and statics with the IR evaluation bit for bit on 4-6 argument vectors",
     "level_text": "Proof of the logic of implicit threading: the usage fixpoint loop (modelled with explicit key iteration "
                   "order, explicit unwrap failures and fuel) is proved for every table to terminate within |keys|^2+1 passes "
                   "without panicking, to compute exactly reachability through the local-use relation independently of the "
@@ -131,9 +139,20 @@ SPEC = {
                   "position between call sites and callee signatures, and to contain exactly the threaded-mode globals "
                   "reachable from the function. Which syntactic positions the analysis visits, the GlobalMode "
                   "classification, the derived order of implicit parameters and the parameter/argument names are "
-                  "re-extracted from the source on every run. The semantic half of C02 (expression/statement translation "
-                  "to Metal preserves values) is not modelled here: it is exercised only by the oracle on the emitted "
-                  "syntax tree, and is stated as not covered.",
+                  "re-extracted from the source on every run. Semantic half (Thm/C02Sem): for an executable model of "
+                  "generate_expression / generate_literal / generate_statement / generate_function_inner / the out-inout "
+                  "trampoline (Model/GenMsl, operator / literal / type-name tables and the text of every modelled arm "
+                  "re-extracted on every run: Gen.MslGenTables) it is proved, for every interpretation of the float / "
+                  "conversion / division primitives, every fuel and every call depth, that the C++/Metal reading of the "
+                  "emitted tree (Spec/SemMsl: int/long literal types, promotions, shift rule, by-value and thread-reference "
+                  "parameters, overloads by tag) equals the typed IR semantics of C01: gen_sem_expr, gen_sem_stmt(s), "
+                  "gen_sem_func (body-carrying definition with statics reachable only through the reference parameters), "
+                  "trampoline_copy_semantics (the emitted trampoline called with arbitrary, possibly aliasing, caller "
+                  "variables = copy-in, typed function, copy-out in parameter order) and gen_sem_program_partial (Metal call = "
+                  "typed copy-in/copy-out call at every depth; partial: three semantic assumptions about the typed "
+                  "functions are hypotheses). Outside the side conditions the statement is false on the current code: "
+                  "negations with witnesses (INT_MIN / literal arithmetic typed long/int in Metal; inout copy-in after "
+                  "later arguments), both replayed on the real exporter as known findings.",
     "trusted_base": [
         "Lean 4.33 kernel; axioms propext / Classical.choice / Quot.sound only (audited by #print axioms)",
         "tools/gens/c02.py (UsageTables): match-arm/field inventory of gather_usage_*, regex shape facts about "
@@ -144,12 +163,41 @@ SPEC = {
         "Spec/Usage.lean: our reading of 'needs' (reachability through mentions and calls) and of which globals Metal "
         "cannot keep at file scope",
         "Rust: Vec::sort returns a sorted permutation; HashMap/HashSet = finite map/set with unspecified iteration order",
+        "tools/gens/c02.py (MslGenTables): arm tables of the Metal generate_intrinsic_op / generate_literal / "
+        "generate_scalar_type and exact-text facts about every modelled arm of generate_expression, generate_statement, "
+        "generate_scope_block, generate_for_init, generate_variable_definition, generate_user_call, "
+        "generate_function_param, generate_function_inner, generate_function_and_trampoline, "
+        "generate_function_out_trampoline_body (an edit of any of them flips a fact and msl_exporter_shape_as_modelled stops checking)",
+        "Spec/SemMsl.lean: our reading of Metal (C++14): an unsuffixed integer literal is int below 2^31, else a 64-bit long; "
+        "unsuffixed and f-suffixed floating literals are float; bool is promoted to int before arithmetic / bitwise / "
+        "relational operators; int,uint -> uint, anything with long -> long, anything with float -> float; a shift has the "
+        "promoted type of its left operand and takes the count modulo the width (Metal spec); int/uint arithmetic wraps; "
+        "integer division, float arithmetic and conversions are the shared abstract primitives; metal::fmod is the float "
+        "remainder the IR's % denotes; &&, ||, ?: short-circuit; arguments and operands are evaluated left to right; "
+        "T-name parameters by value, thread-T&-name parameters bind the argument variable's location; locals live at "
+        "fixed frame slots (flat store shared with C01: no recursion), the trampoline's `out` is reclaimed at return",
+        "the typed IR semantics Spec/Sem + Spec/SemStmt of C01 (shared, unchanged): in particular an out/inout argument is "
+        "copied in when the argument list reaches it, left to right",
+        "harness/src/c02/msleval.rs: an independent Rust implementation of the same Metal reading; the Lean Msl.phi and it "
+        "are compared on every generated case (0 disagreements), as are Lean Ir.phi and the Rust IR evaluator of C01",
     ],
     "assumptions": [
         "names: every global/function/parameter keeps a distinct Metal name (C15); the model works on indices",
         "'needs' counts default-argument expressions and global initialisers (reading agreed after fixes 2c8592f/1d760f5); "
         "threaded_exactly assumes every mention sits at a place gather_usage_* visits (AllSeen; all_positions_descended "
         "discharges it for the generator's 32 positions) and the type checker's guarantee that omitted arguments have defaults",
-        "expression/statement semantics of the emitted Metal (the gen_sem half of C02, shared with C01) is outside this model",
+        "semantic half, side conditions of the theorems (Spec/SemMslWT Ir.okM / wtStmtM): no IntLiteral/FloatLiteral constant "
+        "inside an expression, Int32(i32::MIN) only where the context converts it back to int (both: known finding "
+        "metal-integer-literal-typing); arithmetic / bitwise / relational operators and compound assignments on int, uint, "
+        "float operands (on bool operands C++ promotes to int: the values agree but the proof would need run-time types of "
+        "variables; covered by the oracle only); switch on int / uint; every out/inout argument is a variable outside the "
+        "callee's own slots and the in arguments after it are pure (else: known finding "
+        "inout-copy-in-after-later-arguments); no built-in function calls (Model/GenMsl answers unsupported)",
+        "semantic half, names and layout (AgreeM / AgreeL / AgreeT): emitted names denote the IR's entities and are pairwise "
+        "distinct within a frame incl. the trampoline's __p and out (C15); locals sit at the IR's variable ids, the "
+        "trampoline's copy __p at the id of parameter p, statics threaded as parameters are not in the frame",
+        "gen_sem_program_partial assumes of each typed function that gets a trampoline (SemOK): its result does not depend on "
+        "the entry value of an out parameter (the source writes it first); a void function returns no value; it does not "
+        "touch the trampoline's scratch slot",
     ],
 }
